@@ -229,14 +229,10 @@ def build_fsm(scn, rec, env):
     elif kind == 'timer':
         cls = edzed.Timer
         states = ['off', 'on']
-        if scn.get('period') is not None:
-            kw['t_period'] = dur_py(scn['period'])
-        else:
-            if scn['ton'] is not None or scn.get('explicit_none'):
-                kw['t_on'] = dur_py(scn['ton'])
-            if scn['toff'] is not None or scn.get('explicit_none'):
-                kw['t_off'] = dur_py(scn['toff'])
-        kw['restartable'] = scn['restartable']
+        for key, arg in (('period', 't_period'), ('ton', 't_on'), ('toff', 't_off')):
+            if scn.get(key) is not None or key in scn.get('given_none', ()):
+                kw[arg] = dur_py(scn.get(key))
+        kw['restartable'] = scn.get('restartable_obj', scn['restartable'])
         if scn.get('init') is not None:
             kw['initdef'] = scn['init']
         enter_send = {}
@@ -272,13 +268,13 @@ def build_fsm(scn, rec, env):
 def reset_line(scn):
     kind = scn['kind']
     if kind == 'timer':
-        if scn.get('period') is not None:
-            p = dur_us(scn['period'])
-            half = p if p in (None, 'inf') else (p // 2 if p >= 0 else 0)
-            ton = toff = '-' if half is None else str(half)
-        else:
-            ton, toff = dur_tok(scn['ton']), dur_tok(scn['toff'])
-        return f"fsmtimer reset timer {ton} {toff} {'b1' if scn['restartable'] else 'b0'} {scn.get('init') or '-'}"
+        # the keyword arguments as they are given to Timer(): `~` = not given, `-` = None
+        def tok(key):
+            if scn.get(key) is None:
+                return '-' if key in scn.get('given_none', ()) else '~'
+            return dur_tok(scn[key])
+        return (f"fsmtimer reset timerkw {tok('period')} {tok('ton')} {tok('toff')} "
+                f"{'b1' if scn['restartable'] else 'b0'} {scn.get('init') or '-'}")
     if kind == 'iexp':
         return (f"fsmtimer reset iexp {dur_tok(scn['duration'])} {enc(scn['expired'])} "
                 f"{enc(scn['initdef']) if scn.get('has_initdef') else '-'}")
@@ -376,9 +372,15 @@ def _run_impl(scn):
     circuit = edzed.get_circuit()
     try:
         fsm = build_fsm(scn, rec, env)
-    except Exception as err:     # the generator does not produce invalid classes
+    except Exception as err:
         vtime.uninstall()
-        raise AssertionError(f'invalid scenario: {err!r}') from err
+        if scn['kind'] == 'timer':
+            # the constructor refused its keyword arguments: the model's `timerNew` must refuse them too (with the
+            # same kind of error); the oracle knows from the scenario alone whether a refusal is expected
+            trace[0] = 'err ' + type(err).__name__
+            return {'lines': lines, 'trace': trace, 'steps': [], 'tags': ['kind=timer', 'ctor=' + type(err).__name__],
+                    'nontrivial': True, 'aborted': False, 'ctor_error': type(err).__name__}
+        raise AssertionError(f'invalid scenario: {err!r}') from err     # the generator does not produce others
     state = {'aborted': False, 'cursor': 0}
 
     def failure():
@@ -762,13 +764,39 @@ def gen_fsm(rng, fam):
 
 def gen_timer(rng, fam):
     scn = {'kind': 'timer', 'restartable': rng.random() < 0.5, 'init': rng.choice([None, None, 'on', 'off']),
-           'ton': None, 'toff': None, 'period': None, 'explicit_none': rng.random() < 0.3}
+           'ton': None, 'toff': None, 'period': None, 'given_none': [], 'ctor_may_fail': True}
+    if rng.random() < 0.3:
+        # any object may be given as `restartable`: its truth value counts
+        obj = rng.choice([1, 0, 'yes', '', None, 2.5])
+        scn['restartable_obj'], scn['restartable'] = obj, bool(obj)
     r = rng.random()
     if r < 0.15:
-        scn['period'] = rng.choice([2 * D1, 2 * D2, ['s', '2'], 1_000_000])
+        scn['period'] = rng.choice([2 * D1, 2 * D2, ['s', '2'], 1_000_000, 0, -4, 'inf'])
+        q = rng.random()
+        if q < 0.12:            # t_period excludes t_on / t_off (even when they are None)
+            k = rng.choice(['ton', 'toff'])
+            if rng.random() < 0.5:
+                scn[k] = rng.choice([D1, 'inf'])
+            else:
+                scn['given_none'] = [k]
+        elif q < 0.18:
+            scn['period'], scn['given_none'] = None, ['period']     # None / 2
+        elif q < 0.24:
+            scn['period'] = 'bad'
     else:
-        scn['ton'] = pick_dur(rng, fam, 'inst') if rng.random() < 0.8 else None
-        scn['toff'] = pick_dur(rng, fam, 'inst') if rng.random() < 0.5 else None
+        if rng.random() < 0.3:
+            scn['given_none'] = [k for k in ('ton', 'toff') if rng.random() < 0.6]
+        if rng.random() < 0.04:
+            scn['ton' if rng.random() < 0.5 else 'toff'] = 'bad'
+
+        if scn['ton'] != 'bad':
+            scn['ton'] = pick_dur(rng, fam, 'inst') if rng.random() < 0.8 else None
+            if scn['ton'] is not None and 'ton' in scn['given_none']:
+                scn['given_none'].remove('ton')
+        if scn['toff'] != 'bad':
+            scn['toff'] = pick_dur(rng, fam, 'inst') if rng.random() < 0.5 else None
+            if scn['toff'] is not None and 'toff' in scn['given_none']:
+                scn['given_none'].remove('toff')
         if dur_us(scn['ton']) in (0,) and isinstance(dur_us(scn['toff']), int) and dur_us(scn['toff']) <= 0 \
                 and rng.random() < 0.8:
             scn['toff'] = None
@@ -1114,8 +1142,31 @@ class Ref:
             self.event(when, tev, None, '-')
 
 
+def expected_ctor_error(scn):
+    """docs/sblocks2.rst (Timer): t_period and t_on/t_off are mutually exclusive (TypeError); a duration must be
+    a number, a string with units or None (ValueError otherwise); half of None does not exist (TypeError)"""
+    if scn['kind'] != 'timer':
+        return None
+    given = lambda k: scn.get(k) is not None or k in scn.get('given_none', ())
+    if given('period'):
+        if given('ton') or given('toff'):
+            return 'TypeError'
+        if scn.get('period') is None:
+            return 'TypeError'
+        return 'ValueError' if scn['period'] == 'bad' else None
+    if scn.get('ton') == 'bad' or scn.get('toff') == 'bad':
+        return 'ValueError'
+    return None
+
+
 def oracle(scn, res):
     out = []
+    exp = expected_ctor_error(scn)
+    if exp != res.get('ctor_error'):
+        return [{'clause': 'timer_constructor', 'what': f'Timer(...) raised {res.get("ctor_error")}, expected {exp}',
+                 'sig': {}}]
+    if exp is not None:
+        return []
 
     def bad(clause, what, **sig):
         out.append({'clause': clause, 'what': what, 'sig': sig})
